@@ -319,6 +319,65 @@ def _validate_hier(cfg, outs, model):
         return False
 
 
+def job_hier_direct(k=1, h=1, timeout_q=120.0):
+    """independent cross-check of the certificate: the DIRECT statement for the smallest shape --
+    no feasible (beta, theta) has a smaller objective than what the code returned (one existential NRA query per path)."""
+    loader.install()
+    res = {"paths": 0, "queries": 0, "obligations": [], "violations": [], "validated": 0, "witnesses": 0, "samples": []}
+    box = {}
+
+    def setup():
+        pg = loader.load("sparse._prox_grad")
+        V = harness.free_matrix(1, k, "v")
+        U = harness.free_matrix(1, h, "u")
+        alpha = core.var("alpha", "0+")
+        M = core.var("M", "0+")
+        harness.assume(_norm([V[0, j] for j in range(k)]) > 0)
+        box["pg"] = pg
+        return V, U, alpha, M
+
+    def body(arg):
+        V, U, alpha, M = arg
+        B, T = box["pg"].mlp_prox_grad(V.copy(), U.copy(), alpha, M)
+        return B, T, V, U, alpha, M
+
+    ex = Explorer(max_paths=500)
+    for ret, pc, trace in ex.run(body, setup):
+        res["paths"] += 1
+        tag = f"hier-direct/k{k}h{h}/path{res['paths']}"
+        if isinstance(ret, PathError):
+            res["obligations"].append({"name": tag + "/path-error", "verdict": "inconclusive", "how": repr(ret)[:200]})
+            continue
+        B, T, V, U, alpha, M = ret
+        old = core.CTX.merge_sign
+        core.CTX.merge_sign = True
+        try:
+            be = [core.var(f"be_{j}") for j in range(k)]
+            th = [core.var(f"th_{j}") for j in range(h)]
+            nb = _norm(be)
+            v = [to_rat(V[0, j]) for j in range(k)]
+            u = [to_rat(U[0, j]) for j in range(h)]
+            bs = [to_rat(B[0, j]) for j in range(k)]
+            ts = [to_rat(T[0, j]) for j in range(h)]
+            half = Fraction(1, 2)
+            obj = lambda b_, t_, nrm: sum(((b_[j] - v[j]) ** 2 for j in range(k)), K(0)) * half + sum(((t_[j] - u[j]) ** 2 for j in range(h)), K(0)) * half + alpha * nrm
+            feas = [core.sym_abs(th[j]) <= M * nb for j in range(h)]
+            import z3
+            hyp = [f.t if isinstance(f, core.SymBool) else z3.BoolVal(bool(f)) for f in feas]
+            goal = obj(be, th, nb) >= obj(bs, ts, _norm(bs))
+        finally:
+            core.CTX.merge_sign = old
+        o = harness.prove(goal, list(ex.pc), timeout_s=timeout_q, extra=hyp, fids=harness.all_factors([to_rat(x) for x in bs + ts] + [nb]))
+        o["name"] = tag + "/no feasible (beta, theta) has a smaller objective"
+        res["queries"] += 1
+        res["obligations"].append(_strip(o))
+        if o["verdict"] == "sat":
+            cfg = {"kind": "hier", "d": 1, "k": k, "h": h, "groups": None, "m_zero": False}
+            _report(res, cfg, o, "hier:not-minimiser", "a feasible competitor has a smaller objective than the LassoNet prox output")
+    res["samples"].append({"shape": [k, h], "paths": res["paths"]})
+    return res
+
+
 # ----------------------------------------------------------------------------------------------------------------------
 # lemmas: the certificate implies global optimality (implementation independent; proved in every run)
 
@@ -484,6 +543,8 @@ def jobs(tier):
     hier = [(1, 1, 1), (1, 1, 2), (1, 2, 1), (2, 1, 1)] if q else [(1, 1, 1), (1, 1, 2), (1, 2, 1), (2, 1, 1), (1, 1, 3), (1, 2, 2), (2, 1, 2)]
     for d, k, h in hier:
         out.append({"name": f"hier/d{d}k{k}h{h}", "target": "checks.c05:job_hier", "kwargs": dict(d=d, k=k, h=h), "timeout": 400 if q else 3000})
+    if not q:
+        out.append({"name": "hier-direct/k1h1", "target": "checks.c05:job_hier_direct", "kwargs": dict(k=1, h=1, timeout_q=300.0), "timeout": 3000})
     out.append({"name": "hier/M0/d1k1h2", "target": "checks.c05:job_hier", "kwargs": dict(d=1, k=1, h=2, m_zero=True), "timeout": 300})
     for part in ([[[0], [1]]] if q else list(partitions(range(2))) + [p for p in partitions(range(3))]):
         dd = sum(len(g) for g in part)
